@@ -860,6 +860,12 @@ class Gen:
             prev = self.scopes[-1]["funcs"]
             if prev and rng.random() < 0.3:
                 fname = rng.choice(prev)      # an overload, not necessarily adjacent to the first declaration
+            elif "taken" in self.scopes[-1]:
+                while fname in self.scopes[-1]["taken"] and fname not in prev:
+                    self.counter += 1
+                    fname = "%s%d" % (fname.rstrip("0123456789"), self.counter)
+            if "taken" in self.scopes[-1]:
+                self.scopes[-1]["taken"].add(fname)
             prev.append(fname)
             return Decl('func', tmpl=tmpl, ret=self.gen_ret(tps), name=fname, args=self.gen_args(tps))
         if k == 'fwd':
@@ -888,6 +894,10 @@ class Gen:
             # a re-opened namespace continues the scope of its first block (class / enum names stay unique per C++ scope)
             scope = self.ns_scopes.setdefault(tuple(self.ns_path), dict(classes=set(), funcs=[])) if self.cfg.unique_names \
                 else dict(classes=set(), funcs=[])
+            if self.cfg.matlab_safe:
+                # overloads of one free function spread over two blocks of a re-opened namespace lose the call sites of the
+                # first block (known finding C05-overloads-across-reopened-namespace): new names per block
+                scope = dict(classes=scope["classes"], funcs=[], taken=scope.setdefault("taken", set()))
             self.scopes.append(scope)
             try:
                 content = [self.gen_decl(depth + 1) for _ in range(n)]
